@@ -489,3 +489,52 @@ def curve_antenna(draw, env_kinds=('free', 'ideal'), nsrc=(1, 2), src_form='any'
         draw(sources(case, nsrc[0], nsrc[1], src_form))
     case['_info'] = dict(info, tag_style=style, tapered=False)
     return case
+
+
+# ---------------------------------------------------------------------------
+# wire ends that coincide only within the program's matching tolerance
+
+def minseg_estimate(case):
+    """lower bound of the shortest segment of the (transformed) antenna; the program matches wire ends that are
+    closer than 1e-3 of its shortest segment"""
+    items = rgeo.transformed(case)
+    minseg = 1e99
+    for it in items:
+        o = it['obj']
+        if o['type'] == 'wire':
+            L = np.linalg.norm(it['pts'][1] - it['pts'][0])
+            if o.get('taper'):
+                minseg = min(minseg, max(2.5 * it['r'], L / (2 ** o['n'] - 1)))
+            else:
+                minseg = min(minseg, L / o['n'])
+        else:
+            minseg = min(minseg, np.linalg.norm(np.diff(it['pts'], axis=0), axis=1).min())
+    return float(minseg)
+
+
+@st.composite
+def jitter_ends(draw, case, prob=0.5, lo=0.05e-3, hi=0.4e-3):
+    """move ends of straight wires by lo..hi of the shortest segment (well inside the matching tolerance of 1e-3):
+    junctions stay junctions, but the coordinates of the joined ends are no longer identical.  Ends on the ground
+    plane keep z = 0.  Returns the number of moved ends."""
+    ms = minseg_estimate(case)
+    if any(s.get('f', 1.0) != 1.0 for s in case.get('scales') or []):
+        ms = ms / max(1.0, max(abs(s['f']) for s in case['scales']))
+    ground = case['env']['kind'] != 'free'
+    n = 0
+    for o in case['objs']:
+        if o['type'] != 'wire':
+            continue
+        for e in ('p1', 'p2'):
+            if draw(st.floats(0, 1)) >= prob:
+                continue
+            d = np.array([draw(st.floats(-1, 1)), draw(st.floats(-1, 1)), draw(st.floats(-1, 1))])
+            if ground and abs(o[e][2]) < 1e-12:
+                d[2] = 0.0
+            nd = np.linalg.norm(d)
+            if nd < 1e-3:
+                continue
+            d = d / nd * draw(st.floats(lo, hi)) * ms
+            o[e] = [float(a + b) for a, b in zip(o[e], d)]
+            n += 1
+    return n
